@@ -49,7 +49,16 @@ def run(ctx):
             if has_err:
                 t.add_file(sub + "/short.gz", b"\x1f\x8b\x08")          # io error while reading the header -> Error
             if has_uns:
-                t.add_file(sub + "/notgz.gz", b"this is not gzip at all")  # bad magic -> unsupported
+                # files a handler refuses as not being of its format, for different stated reasons: all count as unsupported, none as an error
+                k = i % 4
+                if k == 0:
+                    t.add_file(sub + "/notgz.gz", b"this is not gzip at all")                       # bad magic
+                elif k == 1:
+                    t.add_file(sub + "/odd.pyc", bytes([203, 13, 13, 10]) + b"\0" * 12 + b"!")      # 3.12 header, then a type code that does not exist
+                elif k == 2:
+                    t.add_file(sub + "/oversize.a", b"!<arch>\n" + b"x.o/            0           0     0     100644  4294967295`\nabcd")   # member size that cannot be padded
+                else:
+                    t.add_file(sub + "/beyond.zip", samples.zip_member_beyond_eof())                 # member data said to extend past the end of the file
             if has_mod:
                 t.add_file(sub + "/dirty.gz", fc.gz(1700000000))
                 t.add_file(sub + "/dirty.a", fc.ar([("x.o/", 1700000000, 7, 8, 100644, b"abc")]))
